@@ -157,10 +157,29 @@ theorem newTokenizer_result (cmp : Cmp ε τ) (s : TkState τ) (hs : Sound cmp s
 theorem settingsSet_sound (cmp : Cmp ε τ) (s : TkState τ) : Sound cmp (settingsSet s) := by
   intro k t h; simp [settingsSet, cget] at h
 
+theorem runTokenizer_glob (cmp : Cmp ε τ) (s : TkState τ) (m : MacrosArg) (p : ProdsArg) :
+    (runTokenizer cmp s m p).2.glob = s.glob := by
+  simp only [runTokenizer]; exact newTokenizer_glob cmp s m p
+
+theorem runTokenizer_sound (cmp : Cmp ε τ) (s : TkState τ) (hs : Sound cmp s) (m : MacrosArg) (p : ProdsArg) :
+    Sound cmp (runTokenizer cmp s m p).2 := by
+  have h := newTokenizer_sound cmp s hs m p
+  intro k t hk
+  exact h k t hk
+
+/-- the tables a run works with are the recomputation under the module-level tables as they are at that moment -/
+theorem runTokenizer_result (cmp : Cmp ε τ) (s : TkState τ) (hs : Sound cmp s) (m : MacrosArg) (p : ProdsArg) :
+    (runTokenizer cmp s m p).1.map (·.1) = tablesOf cmp s.glob m p :=
+  newTokenizer_result cmp s hs m p
+
+theorem runTokenizer_insts (cmp : Cmp ε τ) (s : TkState τ) (m : MacrosArg) (p : ProdsArg) :
+    (runTokenizer cmp s m p).2.insts = s.insts := rfl
+
 theorem tkStep_sound (cmp : Cmp ε τ) (s : TkState τ) (hs : Sound cmp s) (op : TkOp) : Sound cmp (tkStep cmp s op) := by
   cases op with
   | new m p => exact newTokenizer_sound cmp s hs m p
   | settings => exact settingsSet_sound cmp s
+  | run m p => exact runTokenizer_sound cmp s hs m p
 
 theorem tkRun_sound (cmp : Cmp ε τ) (s : TkState τ) (hs : Sound cmp s) (ops : List TkOp) :
     Sound cmp (tkRun cmp s ops) := by
@@ -184,6 +203,11 @@ theorem tkRun_glob (cmp : Cmp ε τ) (s₁ s₂ : TkState τ) (h : s₁.glob = s
       simp only [tkRun, List.foldl_cons, tkExplicit] at *
       apply ih
       simp only [tkStep, settingsSet, h]
+    | run m p =>
+      simp only [tkRun, List.foldl_cons, tkExplicit] at *
+      apply ih
+      simp only [tkStep]
+      rw [runTokenizer_glob]; exact h
 
 /-- the cache is effective: the same arguments again are found, and the stored tables are handed out -/
 theorem newTokenizer_again (cmp : Cmp ε τ) (s : TkState τ) (m : MacrosArg) (p : ProdsArg) (t : τ) (hit : Bool)
@@ -219,6 +243,7 @@ theorem newTokenizer_insts (cmp : Cmp ε τ) (s : TkState τ) (m : MacrosArg) (p
 theorem tkStep_insts (cmp : Cmp ε τ) (s : TkState τ) (op : TkOp) : ∃ l, (tkStep cmp s op).insts = s.insts ++ l := by
   cases op with
   | settings => exact ⟨[], by simp [tkStep, settingsSet]⟩
+  | run m p => exact ⟨[], by simp [tkStep, runTokenizer_insts]⟩
   | new m p =>
     simp only [tkStep]
     cases hc : cget s.cache (keyOf m p) with
